@@ -437,10 +437,16 @@ func tags(c Case) []string {
 	return t
 }
 
-func verdict(c Case, r *result) string {
+// finding is one failed part of the oracle; the parts are judged independently
+// and reported (and tagged: "aspect:<part>") separately, so that a listed
+// finding about one part can never hide a failure of another.
+type finding struct{ aspect, msg string }
+
+func verdicts(c Case, r *result) []finding {
 	if r.hung {
-		return "the operation did not return within 30s (deadlock)"
+		return []finding{{"hang", "the operation did not return within 30s (deadlock)"}}
 	}
+	var out []finding
 	if c.Cancelled {
 		var ran []string
 		for _, e := range r.events {
@@ -449,17 +455,16 @@ func verdict(c Case, r *result) string {
 			}
 		}
 		if len(ran) > 0 {
-			return "a statement reached the driver although the caller's context was already cancelled\n" + strings.Join(ran, "\n")
+			out = append(out, finding{"cancelled-ran", "a statement reached the driver although the caller's context was already cancelled\n" + strings.Join(ran, "\n")})
 		}
-		if len(r.bad) > 0 {
-			return "a driver call did not carry the caller's context\n" + strings.Join(r.bad, "\n")
-		}
-		return ""
 	}
 	if len(r.bad) > 0 {
-		return "a driver call did not carry the caller's context\n" + strings.Join(r.bad, "\n")
+		out = append(out, finding{"marker", "a driver call did not carry the caller's context\n" + strings.Join(r.bad, "\n")})
 	}
-	return ""
+	if r.panicMsg != "" && !c.Cancelled {
+		out = append(out, finding{"panic", "panic inside gorm while running an operation under a live context\n" + r.panicMsg})
+	}
+	return out
 }
 
 func describe(c Case, r *result) string {
@@ -503,8 +508,10 @@ func main() {
 		}
 		r := execute(c)
 		fmt.Print(describe(c, r))
-		if v := verdict(c, r); v != "" {
-			fmt.Printf("verdict: VIOLATION — %s\n", v)
+		if fs := verdicts(c, r); len(fs) > 0 {
+			for _, f := range fs {
+				fmt.Printf("verdict: VIOLATION — %s\n", f.msg)
+			}
 			os.Exit(1)
 		}
 		fmt.Println("verdict: holds")
@@ -669,18 +676,18 @@ func main() {
 					}
 					errMu.Unlock()
 				}
-				v := verdict(c, r)
+				fs := verdicts(c, r)
 				kind := "ok"
-				if v != "" {
-					kind = strings.SplitN(v, "\n", 2)[0]
+				if len(fs) > 0 {
+					kind = ""
+					for _, f := range fs {
+						kind += strings.SplitN(f.msg, "\n", 2)[0] + ";"
+					}
 				}
 				outcomes.Add(fmt.Sprintf("%s|%s|n=%d|b=%d|p=%d|err=%v|%s", op.Kind, c.Wrap, r.statements, r.begins, r.prepares, r.err != nil, kind))
-				if v == "" && r.panicMsg != "" && !c.Cancelled {
-					v = "panic inside gorm while running an operation under a live context\n" + r.panicMsg
-				}
-				if v != "" {
+				for _, f := range fs {
 					c.Readable = op.Text
-					run.Violation(tags(c), v+"\n"+describe(c, r), c)
+					run.Violation(append(tags(c), "aspect:"+f.aspect), f.msg+"\n"+describe(c, r), c)
 				}
 			}
 		}()
